@@ -736,6 +736,44 @@ def rule6(ctx, rep):
             r.instance()
             ok = any(f == fld and typ in t for f, t, _st in checks)
             r.check(ok, f'{g.qname}:{fld}-checked', where(g), f'isinstance(<moment>.{fld}, {typ}) evaluated', f'rule_10 does not require moment.{fld} to be a {typ} (or None), but _delay uses it')
+        # the gate and _delay classify boot events by the same predicate (added after seeded change C20-11: rule_10 and
+        # dawgie.schedule counted `not boot` where _delay asks `boot is not None`; boot=False with a weekday was then
+        # accepted as a weekly event and scheduled as a boot event: fired at once, never on its weekday)
+        def boot_forms(fn):
+            par = {}
+            for n in ast.walk(fn.node):
+                for ch in ast.iter_child_nodes(n):
+                    par[id(ch)] = n
+            out = {}
+            for n in ast.walk(fn.node):
+                is_boot = (isinstance(n, ast.Attribute) and n.attr == 'boot' and isinstance(n.ctx, ast.Load)) or (isinstance(n, ast.Name) and n.id == 'boot' and isinstance(n.ctx, ast.Load) and 'boot' in fn.params())
+                if not is_boot:
+                    continue
+                p_ = par.get(id(n))
+                if isinstance(p_, ast.Compare) and len(p_.ops) == 1 and isinstance(p_.comparators[0], ast.Constant) and p_.comparators[0].value is None and p_.left is n:
+                    out.setdefault('is-none', []).append(p_)
+                elif (isinstance(p_, ast.UnaryOp) and isinstance(p_.op, ast.Not)) or isinstance(p_, ast.BoolOp) or (isinstance(p_, (ast.If, ast.IfExp, ast.While)) and p_.test is n):
+                    out.setdefault('truthy', []).append(p_)
+            return out
+
+        r.instance()
+        dforms = boot_forms(d)
+        gforms = {}
+        for c in cands:
+            for k_, v_ in boot_forms(c).items():
+                gforms.setdefault(k_, []).extend(v_)
+        if not dforms or not gforms:
+            r.fail(f'{g.qname}:boot-classified-alike', where(g), 'the test that tells a boot event from the others was not found in _delay or in rule_10')
+        else:
+            # rule_10 may use nothing _delay does not use (dawgie.schedule mixes both on the unchanged tree and is not compared)
+            odd = sorted(set(gforms) - set(dforms))
+            r.check(
+                not odd,
+                f'{g.qname}:boot-classified-alike',
+                where(g, gforms[odd[0]][0] if odd else None),
+                f'rule_10 and _delay both classify by {sorted(dforms)}',
+                f'rule_10 decides "is this a boot event" by {odd} ({norm(gforms[odd[0]][0])[:40] if odd else ""}) while _delay decides by {sorted(dforms)}: a value the two read differently (boot=False) is validated as one kind of event and scheduled as the other',
+            )
         r.instance()
         r.check(sums > 0, f'{g.qname}:exactly-one', where(g), 'the number of given moment kinds is counted', 'rule_10 does not count how many of boot/day/dom/dow are given (exactly one must be): _delay would combine or skip moments')
 
@@ -762,6 +800,8 @@ def check(ctx):
 
 
 VARIANTS = [
+    V('rule_10 reads boot=False as no boot event', 'B', 'tools/compliant.py', 'rule_10', 'if e.moment.boot is None:', 'if not e.moment.boot:', 'R-C20-6'),
+
     V('paused re-arm uses a shared wrapper', 'B', 'pl/schedule.py', 'defer', "dawgie.pl.DeferWithLogOnError(\n                defer,\n                'handling error while scheduling periodic event',\n                __name__,\n            ).callback", '_wakeup.callback', 'R-C20-5'),
     V('monthly candidate carries the year from the wrong month', 'B', 'pl/schedule.py', '_delay', 'nm = now.month + 1', 'nm = now.month % 12 + 1', 'R-C20-2'),
     V('boot token is the algorithm name', 'B', 'pl/schedule.py', '_delay', 'if when in booted:\n            raise _DelayNotKnowableError()', 'if when.algref.impl.name() in booted:\n            raise _DelayNotKnowableError()', 'R-C20-4'),
